@@ -3,6 +3,7 @@ package main
 import (
 	"bytes"
 	"context"
+	"crypto/sha256"
 	"encoding/hex"
 	"encoding/json"
 	"errors"
@@ -78,6 +79,9 @@ type concHistory struct {
 	Hooks    []concHook `json:"hooks"`
 	Tables   int        `json:"tables_at_end"`
 	CloseErr string     `json:"close_err"`
+	Fresh    bool       `json:"fresh"`   // fresh-database history (concFreshChild)
+	Notes    []string   `json:"notes"`   // input classes of a fresh-database history
+	Gen2Ms   int        `json:"gen2_ms"` // fresh-database history: time between the first and the second rotation
 }
 
 // ---- the recorder (child process): a crash of the library (log.Panicf in a background goroutine) must not take the
@@ -90,7 +94,11 @@ func concChildMain(args []string) int {
 	idx := fs.Uint64("idx", 0, "")
 	tier := fs.String("tier", "quick", "")
 	out := fs.String("out", "", "")
+	fresh := fs.Bool("fresh", false, "")
 	_ = fs.Parse(args)
+	if *fresh {
+		return concFreshChild(*seed, *idx, *tier, *out)
+	}
 	r := NewRng(*seed, *idx)
 	h := concHistory{}
 	h.Threads = 2 + r.Intn(7)
@@ -334,6 +342,326 @@ func concChildMain(args []string) int {
 	}
 	b, _ := json.Marshal(&h)
 	if err := os.WriteFile(*out, b, 0o644); err != nil {
+		fmt.Fprintln(os.Stderr, "HARNESS", err)
+		return 4
+	}
+	return 0
+}
+
+// ---------------------------------------------------------------------------------------------
+// fresh-database histories (C05): the cases n, n+1, ... of a run of stream conc.  The database is NEW (no table on
+// disk).  Thread 0 fills the first memstore with 8-32 MiB of incompressible values (its flush takes a while), the
+// memstore is rotated, and while the flusher is still writing table 1 the same thread deletes keys of that first
+// generation and rotates again (second generation), writes a little more and rotates a third time - now the deleted
+// keys are in neither memstore, what a Get returns is decided by the tables alone.  Then all threads read every key
+// (and write the other keys) while a hook goroutine forces rotations, flush waits and compaction cycles.  The oracle is
+// the one of the other histories: porcupine + witness search + replay through the two Lean models.  Values longer than
+// 512 bytes are recorded by their first 24 bytes (unique prefix), their length and a SHA-256 digest (concAbbrev), in
+// the Put and in the Get alike.
+
+func concAbbrev(v []byte) string {
+	if len(v) <= 512 {
+		return hex.EncodeToString(v)
+	}
+	sum := sha256.Sum256(v)
+	return hex.EncodeToString(v[:24]) + fmt.Sprintf("%08x", len(v)) + hex.EncodeToString(sum[:12])
+}
+
+// number of fresh-database histories that follow the n regular ones
+func concFreshExtra(n int) int {
+	if n <= 0 {
+		return 0
+	}
+	return 1 + n/10
+}
+
+func concFreshChild(seed, idx uint64, tier, out string) int {
+	r := NewRng(seed^0x6672657368646221, idx)
+	h := concHistory{Fresh: true}
+	h.Threads = 3 + r.Intn(6)
+	if tier == "thorough" {
+		h.Procs = 1 + r.Intn(16)
+	} else {
+		h.Procs = []int{2, 4, 8}[r.Intn(3)]
+	}
+	runtime.GOMAXPROCS(h.Procs)
+	// the first rotation: inside the Put that exceeds a 1 MiB memstore, or forced by the hook
+	sizeTriggered := r.Chance(50)
+	firstMiB := []int{8, 12, 16, 24, 32}[r.Intn(5)]
+	o := dbOpts{memstore: 1 << 32, rbuf: 4096}
+	if sizeTriggered {
+		o.memstore = 1 << 20
+	}
+	h.Memstore = o.memstore
+	o.wbuf = uint64([]int{4096, 1 << 20, 4 << 20}[r.Intn(3)])
+	o.threshold = r.Intn(3)
+	o.maxSize = uint64([]int{1 << 20, 1 << 30}[r.Intn(2)]) // the big first table is excluded from / takes part in the cycles
+	rat := [][2]int{{0, 1}, {1, 4}, {1, 1}, {1, 5}}[r.Intn(4)]
+	o.ratioNum, o.ratioDen = rat[0], rat[1]
+	h.Async = r.Chance(75)
+	h.OptsTok = o.modelTok()
+	base := ""
+	if st, err := os.Stat("/dev/shm"); err == nil && st.IsDir() && r.Chance(50) {
+		base = "/dev/shm"
+	}
+	dir, err := os.MkdirTemp(base, "verif-conc-fresh-")
+	if err != nil {
+		fmt.Fprintln(os.Stderr, "HARNESS", err)
+		return 4
+	}
+	defer os.RemoveAll(dir)
+	opts := o.extra()
+	if h.Async {
+		opts = append(opts, simpledb.EnableAsyncWAL())
+	}
+	db, err := simpledb.NewSimpleDB(dir, opts...)
+	if err != nil {
+		fmt.Fprintln(os.Stderr, "HARNESS", err)
+		return 4
+	}
+	if err := db.Open(); err != nil {
+		fmt.Fprintln(os.Stderr, "OPEN-FAILED", err)
+		return 5
+	}
+	nGen1, nOther := 2+r.Intn(4), 2+r.Intn(3)
+	h.Keys = nGen1 + nOther
+	var keys [][]byte
+	for i := 0; i < h.Keys; i++ {
+		switch r.Intn(5) {
+		case 0:
+			keys = append(keys, []byte{0xff, 0xfe, byte(i)})
+		case 1:
+			keys = append(keys, append([]byte("a-rather-long-key-"), bytesRepeat(byte('a'+i), 30)...))
+		default:
+			keys = append(keys, []byte{byte('a' + i)})
+		}
+	}
+	gen1, others := keys[:nGen1], keys[nGen1:]
+	var clock int64
+	stamp := func() int64 { return atomic.AddInt64(&clock, 1) }
+	recs := make([][]concOp, h.Threads)
+	note := func(s string) { h.Notes = append(h.Notes, s) }
+	serial := 0
+	put := func(t int, k []byte, size int) {
+		serial++
+		v := []byte(fmt.Sprintf("v%d-%d-pre-%016x-", t, serial, r.Next())) // unique: a read identifies its write
+		if size > len(v) {
+			v = append(v, r.Bytes(size-len(v))...) // incompressible
+		}
+		op := concOp{T: t, Kind: "p", Key: hex.EncodeToString(k), Val: concAbbrev(v), Call: stamp()}
+		var err error
+		if r.Chance(50) && size < 1<<20 {
+			err = db.Put(string(k), string(v))
+		} else {
+			err = db.PutBytes(k, v)
+		}
+		op.Ret = stamp()
+		op.Out = dbRes(err)
+		recs[t] = append(recs[t], op)
+	}
+	del := func(t int, k []byte) {
+		op := concOp{T: t, Kind: "d", Key: hex.EncodeToString(k), Call: stamp()}
+		var err error
+		if r.Chance(50) {
+			err = db.Delete(string(k))
+		} else {
+			err = db.DeleteBytes(k)
+		}
+		op.Ret = stamp()
+		op.Out = dbRes(err)
+		recs[t] = append(recs[t], op)
+	}
+	hook := func(kind string) {
+		hk := concHook{Kind: kind, Call: stamp()}
+		switch kind {
+		case "rot":
+			if err := db.VerifRotate(); err != nil {
+				hk.Err = err.Error()
+			}
+		case "wait":
+			db.VerifWaitFlushIdle()
+		}
+		hk.Ret = stamp()
+		h.Hooks = append(h.Hooks, hk)
+	}
+	tables := func() int {
+		names, _, _, _ := db.VerifTables()
+		return len(names)
+	}
+	// generation 1: every first-generation key gets a value, 8-32 MiB in total
+	note(fmt.Sprintf("first-memstore-MiB:%d", firstMiB))
+	if sizeTriggered {
+		note("first-rotation:size-triggered")
+		// small values first (below the limit), then one big value: that Put rotates
+		for _, k := range gen1[:nGen1-1] {
+			put(0, k, 40+r.Intn(2000))
+		}
+		put(0, gen1[nGen1-1], firstMiB<<20)
+	} else {
+		note("first-rotation:forced")
+		for _, k := range gen1 {
+			put(0, k, (firstMiB<<20)/nGen1)
+		}
+		hook("rot")
+	}
+	// generation 2, at once: deletes of first-generation keys (at least one), sometimes a small overwrite
+	t0 := time.Now()
+	nDel := 0
+	for i, k := range gen1 {
+		if r.Chance(70) || (i == nGen1-1 && nDel == 0) {
+			del(0, k)
+			nDel++
+		} else if r.Chance(30) {
+			put(0, k, 30+r.Intn(60))
+		}
+	}
+	if tables() == 0 {
+		note("second-rotation-decided-while-first-flush-runs")
+	} else {
+		note("second-rotation-decided-after-first-flush")
+	}
+	if sizeTriggered && r.Chance(70) {
+		put(0, others[0], 1<<20+200<<10) // exceeds the 1 MiB limit: rotates
+	} else {
+		put(0, others[0], 30+r.Intn(60))
+		hook("rot")
+	}
+	h.Gen2Ms = int(time.Since(t0).Milliseconds())
+	// generation 3: a little more, third rotation: the second generation leaves the memstore pair
+	for _, k := range others[1:] {
+		if r.Chance(60) {
+			put(0, k, 30+r.Intn(60))
+		}
+	}
+	put(0, others[r.Intn(len(others))], 30+r.Intn(60))
+	hook("rot")
+	if r.Chance(50) {
+		hook("wait")
+	}
+	// all threads read every key; writes go to the other keys (rarely to a first-generation key)
+	perThread := 60 + r.Intn(100)
+	var wg sync.WaitGroup
+	start := make(chan struct{})
+	for t := 0; t < h.Threads; t++ {
+		wg.Add(1)
+		go func(t int) {
+			defer wg.Done()
+			rr := NewRng(seed*7919+idx, uint64(5000+t))
+			ser := 0
+			<-start
+			for i := 0; i < perThread; i++ {
+				k := keys[rr.Intn(len(keys))]
+				c := rr.Intn(100)
+				if i < len(gen1) {
+					k, c = gen1[(i+t)%len(gen1)], 0 // first of all: every first-generation key
+				} else if c >= 75 && !rr.Chance(8) {
+					k = others[rr.Intn(len(others))]
+				}
+				op := concOp{T: t, Key: hex.EncodeToString(k)}
+				switch {
+				case c < 75:
+					op.Kind = "g"
+					op.Call = stamp()
+					var v []byte
+					var err error
+					if rr.Chance(50) {
+						var s string
+						s, err = db.Get(string(k))
+						v = []byte(s)
+					} else {
+						v, err = db.GetBytes(k)
+					}
+					op.Ret = stamp()
+					switch {
+					case err == nil:
+						op.Out = "val:" + concAbbrev(v)
+					case errors.Is(err, simpledb.ErrNotFound):
+						op.Out = "notfound"
+					default:
+						op.Out = "err:" + err.Error()
+					}
+				case c < 90:
+					op.Kind = "p"
+					ser++
+					v := append([]byte(fmt.Sprintf("v%d-%d-", t, ser)), bytesRepeat('x', rr.Intn(70))...)
+					op.Val = hex.EncodeToString(v)
+					op.Call = stamp()
+					var err error
+					if rr.Chance(50) {
+						err = db.Put(string(k), string(v))
+					} else {
+						err = db.PutBytes(k, v)
+					}
+					op.Ret = stamp()
+					op.Out = dbRes(err)
+				default:
+					op.Kind = "d"
+					op.Call = stamp()
+					var err error
+					if rr.Chance(50) {
+						err = db.Delete(string(k))
+					} else {
+						err = db.DeleteBytes(k)
+					}
+					op.Ret = stamp()
+					op.Out = dbRes(err)
+				}
+				recs[t] = append(recs[t], op)
+				if rr.Chance(10) {
+					runtime.Gosched()
+				}
+			}
+		}(t)
+	}
+	stop := make(chan struct{})
+	var hookWg sync.WaitGroup
+	hookWg.Add(1)
+	go func() {
+		defer hookWg.Done()
+		hr := NewRng(seed*7919+idx, 4999)
+		<-start
+		for {
+			select {
+			case <-stop:
+				return
+			default:
+			}
+			time.Sleep(time.Duration(200+hr.Intn(1500)) * time.Microsecond)
+			hk := concHook{Call: stamp()}
+			switch c := hr.Intn(100); {
+			case c < 40:
+				hk.Kind = "rot"
+				if err := db.VerifRotate(); err != nil {
+					hk.Err = err.Error()
+				}
+			case c < 60:
+				hk.Kind = "wait"
+				db.VerifWaitFlushIdle()
+			default:
+				hk.Kind = "compact"
+				sel, _, err := db.VerifCompactOnce()
+				hk.Sel = len(sel)
+				if err != nil {
+					hk.Err = err.Error()
+				}
+			}
+			hk.Ret = stamp()
+			h.Hooks = append(h.Hooks, hk)
+		}
+	}()
+	close(start)
+	wg.Wait()
+	close(stop)
+	hookWg.Wait()
+	h.Tables = tables()
+	if err := db.Close(); err != nil {
+		h.CloseErr = err.Error()
+	}
+	for _, rs := range recs {
+		h.Ops = append(h.Ops, rs...)
+	}
+	b, _ := json.Marshal(&h)
+	if err := os.WriteFile(out, b, 0o644); err != nil {
 		fmt.Fprintln(os.Stderr, "HARNESS", err)
 		return 4
 	}
@@ -716,7 +1044,10 @@ func runConc(res *Result, drv *Driver, seed uint64, n int, tier string, only int
 		"micro-steps injected, through the Lean L7 model; non-trivial = overlapping calls and at least one rotation or compaction during the run; distinct = distinct histories; " +
 		"C18 part (child c18child per case, package cmd/racestress/c18 in an ordinary build): deterministic Get/Put/Delete programs on a memstore and a DB handle whose returned slices " +
 		"(and Put arguments) are compared again after every later step, readers holding results while writers overwrite the same keys, and a small table re-opened with every read " +
-		"option combination with 8-12 goroutines issuing their first value reads on the fresh reader behind a start barrier"
+		"option combination with 8-12 goroutines issuing their first value reads on the fresh reader behind a start barrier; " +
+		"after the n regular histories 1 + n/10 FRESH-DATABASE histories: a new database whose first memstore holds 8-32 MiB of incompressible values (slow first flush; first rotation " +
+		"size-triggered or forced), at once deletes of keys of that first generation and a second rotation (decided while the first flush is still running), a third rotation, then 3-8 goroutines " +
+		"reading every key and writing the other keys with the hook goroutine running; same oracles (values above 512 bytes recorded by prefix, length and SHA-256)"
 	tmp, err := os.MkdirTemp("", "verif-conc-parent-")
 	if err != nil {
 		return err
@@ -752,7 +1083,14 @@ func runConc(res *Result, drv *Driver, seed uint64, n int, tier string, only int
 		if only >= 0 && idx != only {
 			continue
 		}
-		firstErr = concOne(res, drv, seed, idx, tier, tmp)
+		firstErr = concOne(res, drv, seed, idx, tier, tmp, false)
+	}
+	// fresh-database histories (recorder + linearizability oracle + model replays; no C18 part)
+	for idx := n; idx < n+concFreshExtra(n) && firstErr == nil; idx++ {
+		if only >= 0 && idx != only {
+			continue
+		}
+		firstErr = concOne(res, drv, seed, idx, tier, tmp, true)
 	}
 	c18wg.Wait()
 	if firstErr != nil {
@@ -784,7 +1122,7 @@ func runConc(res *Result, drv *Driver, seed uint64, n int, tier string, only int
 	return nil
 }
 
-func concOne(res *Result, drv *Driver, seed uint64, idx int, tier string, tmp string) error {
+func concOne(res *Result, drv *Driver, seed uint64, idx int, tier string, tmp string, fresh bool) error {
 	res.Cases++
 	tPhase := time.Now()
 	phase := func(name string) {
@@ -792,7 +1130,11 @@ func concOne(res *Result, drv *Driver, seed uint64, idx int, tier string, tmp st
 		tPhase = time.Now()
 	}
 	out := filepath.Join(tmp, fmt.Sprintf("hist-%d.json", idx))
-	_, stderr, rc, err := runChild(180*time.Second, nil, "", selfExe(), "concchild", "--seed", fmt.Sprint(seed), "--idx", fmt.Sprint(idx), "--tier", tier, "--out", out)
+	childArgs := []string{"concchild", "--seed", fmt.Sprint(seed), "--idx", fmt.Sprint(idx), "--tier", tier, "--out", out}
+	if fresh {
+		childArgs = append(childArgs, "--fresh")
+	}
+	_, stderr, rc, err := runChild(180*time.Second, nil, "", selfExe(), childArgs...)
 	if err != nil && rc == -1 {
 		return err
 	}
@@ -807,7 +1149,7 @@ func concOne(res *Result, drv *Driver, seed uint64, idx int, tier string, tmp st
 		if err != nil {
 			sig = "recorder-hung"
 		}
-		res.Violate(idx, "C05", sig, fmt.Sprintf("rc=%d %v stderr: %s", rc, err, tail(stderr, 1500)), fmt.Sprintf("concchild seed=%d idx=%d tier=%s", seed, idx, tier))
+		res.Violate(idx, "C05", sig, fmt.Sprintf("rc=%d %v stderr: %s", rc, err, tail(stderr, 1500)), fmt.Sprintf("concchild seed=%d idx=%d tier=%s fresh=%v", seed, idx, tier, fresh))
 		return nil
 	}
 	phase("recorder")
@@ -821,6 +1163,13 @@ func concOne(res *Result, drv *Driver, seed uint64, idx int, tier string, tmp st
 		return err
 	}
 	cs := fmt.Sprintf("threads=%d keys=%d procs=%d memstore=%d async=%v %s ops=%d hooks=%d", h.Threads, h.Keys, h.Procs, h.Memstore, h.Async, h.OptsTok, len(h.Ops), len(h.Hooks))
+	if h.Fresh {
+		cs = "fresh-database[" + strings.Join(h.Notes, ",") + fmt.Sprintf(",ms-between-rotation-1-and-2:%d] ", h.Gen2Ms) + cs
+		res.Stat("case:fresh-database-slow-first-flush")
+		for _, nt := range h.Notes {
+			res.Stat("fresh:" + nt)
+		}
+	}
 	res.Stat(fmt.Sprintf("threads:%d", h.Threads))
 	res.Stat(fmt.Sprintf("procs:%d", h.Procs))
 	res.Stat(fmt.Sprintf("memstore:%d", h.Memstore))
